@@ -57,10 +57,24 @@ type FuncContract struct {
 	Pure        bool // no modelled heap effects (extern)
 	Modifies    []string
 	HasModifies bool
+	GhostSets   []GhostSet // ghost assignments at program points (`set G = E at entry | after call KEY N`)
 	Findings    []FindingSplit
 	Trusted     bool // contract assumed at call sites, body not verified
 	File        string
 	Line        int
+}
+
+// GhostSet is ghost code: an assignment to a global ghost variable at function entry or right after the
+// N-th call (in block order) of a named callee; `result`/`resultK` name that call's results.
+type GhostSet struct {
+	Name    string
+	E       *Expr
+	Src     string
+	AtEntry bool
+	Callee  string
+	Nth     int
+	File    string
+	Line    int
 }
 
 type SpecFunc struct {
@@ -103,7 +117,7 @@ func newContractSet() *ContractSet {
 	return &ContractSet{Funcs: map[string]*FuncContract{}, SpecFuncs: map[string]*SpecFunc{}, Lemmas: map[string]*Lemma{}, GhostVars: map[string]string{}}
 }
 
-var keywordRe = regexp.MustCompile(`^(func|extern|requires|ensures|loop|ghost|nopanic|nooverflow|inline|pure|modifies|spec|axiom|lemma|finding|trusted|end)\b`)
+var keywordRe = regexp.MustCompile(`^(func|extern|requires|ensures|loop|ghost|set|nopanic|nooverflow|inline|pure|modifies|spec|axiom|lemma|finding|trusted|end)\b`)
 
 // loadContractFile parses one contract file. pkgName qualifies unqualified function names.
 func (cs *ContractSet) loadContractFile(path, pkgName string) error {
@@ -267,6 +281,26 @@ func (cs *ContractSet) loadContractFile(path, pkgName string) error {
 			}
 			sf.File = path
 			cs.SpecFuncs[sf.Name] = sf
+		case "set":
+			if cur == nil {
+				return fail("set outside func")
+			}
+			m := regexp.MustCompile(`^([A-Za-z_][A-Za-z0-9_]*)\s*=\s*(.*?)\s+(at entry|after call (\S+) (\d+))$`).FindStringSubmatch(rest)
+			if m == nil {
+				return fail("set NAME = EXPR (at entry | after call KEY N)")
+			}
+			e, err := parseSpecExpr(m[2])
+			if err != nil {
+				return fail("%v", err)
+			}
+			gs := GhostSet{Name: m[1], E: e, Src: m[2], File: path, Line: it.line}
+			if m[3] == "at entry" {
+				gs.AtEntry = true
+			} else {
+				gs.Callee = m[4]
+				gs.Nth, _ = strconv.Atoi(m[5])
+			}
+			cur.GhostSets = append(cur.GhostSets, gs)
 		case "modifies":
 			if cur == nil {
 				return fail("modifies outside func")
